@@ -678,7 +678,7 @@ std::string to_hex(bitblock<nbits> bits, bool nibbleMarker = false, bool hexPref
 		break;
 	default:
 		{
-			unsigned nrHexits = (nbits >> 2) + (nbits % 4 ? 0 : 1);
+			unsigned nrHexits = (nbits >> 2) + (nbits % 4 ? 1 : 0);
 			for (unsigned i = 0; i < nrHexits; i++) {
 				hexit = static_cast<unsigned>((bits[3] << 3u) + (bits[2] << 2u) + (bits[1] << 1u) + bits[0]);
 				hexStr = hexits[hexit] + hexStr;
